@@ -19,9 +19,18 @@ spec/redis/RespTrace.tla   validation of recorded runs of the real codec.
     (binding of the transcription; a difference there is a model problem, not a violation).
  3. code -> spec: seeded random values / inline commands / chunkings through the real codec, recorded and judged by
     TLC with the operators of Resp.tla (RespTrace).
+ 4. shared state of the codec (spec/redis/RespEnc.tla): several encoders interleaved at the granularity format a number /
+    write it (possibly in two pieces around a blocking flush).  With a scratch private to the call (the code) every wire
+    carries its own values (MC_RespEnc_private); with a scratch shared between encoders the round trip breaks
+    (MC_RespEnc_shared must yield the counterexample).  Code side: c10-concurrent runs >= 64 goroutines, each round with
+    its own real encoder and decoder, on streams dense in integers outside the itoa table, bulk strings > 32768 bytes
+    and arrays > 32768 elements, while other goroutines replay the TLC vectors of all classes and 16 clients pipeline
+    through a real Redis processor (session / backend client encoders over TCP); what was decoded must be what was sent,
+    and recorded concurrent rounds are judged by TLC (wire = Encode(sent)).
 """
 import json
 import os
+import threading
 
 import kit
 
@@ -55,6 +64,171 @@ def _gen(ctx, cfg, tag, workers=4, timeout=900):
     return r, [(t, p) for (t, p) in r.prints if t in tag]
 
 
+class _Bg:
+    """Run fn in a thread (harness sub-processes that need no TLC result); join() returns its result or re-raises."""
+
+    def __init__(self, fn):
+        self.res, self.exc = None, None
+        self.t = threading.Thread(target=self._run, args=(fn,))
+        self.t.start()
+
+    def _run(self, fn):
+        try:
+            self.res = fn()
+        except BaseException as e:   # noqa: re-raised in join
+            self.exc = e
+
+    def join(self):
+        self.t.join()
+        if self.exc is not None:
+            raise self.exc
+        return self.res
+
+
+def encoders_model(ctx):
+    """4. RespEnc.tla: private scratch (the code) holds, shared scratch violates the round trip."""
+    ctx.assumptions.append(
+        "concurrent encoders: the interleaving of the real goroutines is not forced (no hook between formatting a number and "
+        "writing it, and the exports encode into memory only): many encoders run at once on more goroutines than Ps and the "
+        "window is hit statistically; the blocked-flush-in-the-middle-of-a-number window is explored in the model only")
+    ctx.mc("redis", "RespEnc", "MC_RespEnc_private.cfg", workers=4, timeout=300)
+    ctx.mc("redis", "RespEnc", "MC_RespEnc_shared.cfg", workers=2, timeout=300, count=False,
+           expect_violated=["WireIsOwn", "RoundTripAll"])
+    if ctx.thorough:
+        # the round trip also breaks without a split write; every encoder finishes in some behaviour
+        ctx.mc("redis", "RespEnc", "MC_RespEnc_shared_nosplit.cfg", workers=2, timeout=300, count=False,
+               expect_violated=["RoundTripAll"])
+        ctx.mc("redis", "RespEnc", "MC_RespEnc_done.cfg", workers=2, timeout=300, count=False, expect_violated=["NeverAllDone"])
+
+
+def run_concurrent(ctx, vfile):
+    """The concurrent stratum on the real code (sub-process only; interpreted by concurrent_results)."""
+    cfile = os.path.join(ctx.work, "concurrent.ndjson")
+    tfile = os.path.join(ctx.work, "concurrent-recorded.json")
+    rounds = 8000 if ctx.thorough else 2500
+    rc, so, se = ctx.harness(["c10-concurrent", "-out", cfile, "-trace", tfile, "-vectors", vfile, "-workers", "64",
+                              "-rounds", str(rounds), "-tracen", "240" if ctx.thorough else "150"], timeout=900, allow_fail=True)
+    return rc, se, cfile, tfile
+
+
+def concurrent_results(ctx, rc, se, cfile, tfile):
+    recs = kit.read_ndjson(cfile) if os.path.exists(cfile) else []
+    if rc != 0:
+        if "panic" in se or "fatal error" in se:
+            ctx.violation("codec/concurrent-encoders/crash", "the harness process died while encoders ran concurrently: %s" % se[-600:],
+                          {"stderr": se[-3000:]})
+            return
+        raise kit.Inconclusive("c10-concurrent exited %d: %s" % (rc, se[-1500:]))
+    sums = {r["part"]: r for r in recs if r.get("kind") == "summary"}
+    for part in ("inproc", "vectors", "e2e"):
+        if part not in sums:
+            raise kit.Inconclusive("c10-concurrent: no summary of part %s" % part)
+    for r in recs:
+        if r.get("kind") != "mismatch":
+            continue
+        if "part" in r:
+            ctx.violation("codec/concurrent-encoders/" + r["what"],
+                          "%s, %d encoders at once: goroutine %s round %s sent %s, got %s %s (wire rope %s)" % (
+                              r["part"], sums[r["part"]]["workers"], r.get("worker"), r.get("round"),
+                              json.dumps(r.get("sent"))[:400], json.dumps(r.get("got"))[:400], r.get("err", ""),
+                              (r.get("wire") or [])[:120]),
+                          r)
+        elif not r["what"].startswith("model/"):
+            ctx.violation("codec/concurrent-encoders/" + r["what"],
+                          "vector %s %s replayed while other encoders run: real codec %s, specification %s" % (
+                              r.get("tag"), r.get("id"), json.dumps(r.get("got"))[:300], json.dumps(r.get("want"))[:300]), r)
+    infra = [r for r in recs if r.get("kind") == "infra"]
+    if infra and not ctx.violations:
+        raise kit.Inconclusive("c10-concurrent: %s" % "; ".join(r["why"] for r in infra[:3]))
+    if sums["inproc"]["workers"] < 8 or sums["inproc"]["big_numbers"] < 100000 or sums["e2e"]["round_trips"] < 1000:
+        if not ctx.violations:
+            raise kit.Inconclusive("concurrent stratum too thin: %s" % sums)
+    ctx.cov["concurrent_encoders"] = {
+        "goroutines_with_own_encoder_decoder": sums["inproc"]["workers"], "round_trips": sums["inproc"]["round_trips"],
+        "numbers_outside_itoa_table_encoded": sums["inproc"]["big_numbers"], "gomaxprocs": sums["inproc"]["gomaxprocs"],
+        "vector_replaying_goroutines": sums["vectors"]["workers"], "vector_executions": sums["vectors"]["round_trips"],
+        "e2e_clients": sums["e2e"]["workers"], "e2e_replies_checked": sums["e2e"]["round_trips"]}
+    ctx.case(key="concurrent encoders: in-process round trips", n=sums["inproc"]["round_trips"])
+    ctx.case(key="concurrent encoders: vectors replayed meanwhile", n=sums["vectors"]["round_trips"])
+    ctx.case(key="concurrent encoders: replies through the proxy", n=sums["e2e"]["round_trips"])
+    # recorded concurrent rounds judged by TLC
+    with open(tfile) as f:
+        events = json.load(f)
+    if len(events) < 50:
+        if not ctx.violations:
+            raise kit.Inconclusive("only %d concurrent rounds recorded" % len(events))
+        return
+    rt = ctx.validate_traces("redis", "RespTrace", "Trace_Resp.cfg", events, len(events), timeout=600)
+    ctx.cov["states"] += rt.distinct
+    ctx.cov["transitions"] += rt.generated
+    if not rt.ok:
+        if rt.reject is None:
+            if ctx.violations:
+                return
+            raise kit.Inconclusive("RespTrace (concurrent rounds) failed without a rejection: %s" % (rt.error or rt.violated))
+        idx = rt.reject[0] - 1
+        e = events[idx] if 0 <= idx < len(events) else None
+        failed = rt.reject[1].strip().strip('"').split()
+        if failed == ["reads"]:
+            if ctx.violations:
+                return
+            raise kit.Inconclusive("RespReader.tla predicts other reads than bufio.go issued in a concurrent round: %s" % json.dumps(e)[:800])
+        ctx.violation("codec/concurrent-encoders/recorded-" + "+".join(x for x in failed if x != "reads"),
+                      "TLC rejects a round recorded while %d encoders ran (%s): sent %s, wire rope %s, decoded %s" % (
+                          sums["inproc"]["workers"], failed, e and json.dumps(e["sent"])[:300], e and e["stream"][:120],
+                          e and json.dumps(e["dec"])[:300]),
+                      {"index": idx, "failed": failed, "record": e})
+    else:
+        for e in events:
+            ctx.case(key="K" + json.dumps([e["buf"], e["chunks"][:50], e["stream"][:200]]), nontrivial=True)
+
+
+def recorded_runs(ctx):
+    """3. recorded runs of the real codec judged by TLC."""
+    n_rec = 1500 if ctx.thorough else 300
+    n_long = 150 if ctx.thorough else 25
+    per = 300
+    accepted = 0
+    model_trouble = None
+    for part in range(0, n_rec, per):
+        tfile = os.path.join(ctx.work, "recorded-%d.json" % part)
+        ctx.harness(["c10-record", "-n", str(min(per, n_rec - part)), "-long", str(max(0, min(per, n_long - part))), "-out", tfile],
+                    env={"VERIF_SEED": str(ctx.seed * 1000 + part)}, timeout=600)
+        with open(tfile) as f:
+            events = json.load(f)
+        rt = ctx.validate_traces("redis", "RespTrace", "Trace_Resp.cfg", events, len(events), timeout=600)
+        ctx.cov["states"] += rt.distinct
+        ctx.cov["transitions"] += rt.generated
+        if not rt.ok:
+            if rt.reject is None:
+                raise kit.Inconclusive("RespTrace failed without a rejection: %s" % (rt.error or rt.violated))
+            idx = rt.reject[0] - 1
+            e = events[idx] if 0 <= idx < len(events) else None
+            failed = rt.reject[1].strip().strip('"').split()
+            if failed == ["reads"]:
+                # a model problem unless the replay (still running) shows that the code is what changed: decided by run()
+                model_trouble = ("RespReader.tla predicts other reads than bufio.go issued in recorded run %d: %s"
+                                 % (idx, json.dumps(e)[:800]))
+                break
+            ctx.violation("recorded/" + "+".join(x for x in failed if x != "reads"),
+                          "TLC rejects a recorded run of the real codec (%s): stream rope %s chunks %s buffer %s decoded %s err %s" % (
+                              failed, e and e["stream"][:80], e and e["chunks"][:20], e and e["buf"],
+                              e and json.dumps(e["dec"])[:300], e and e["err"]),
+                          {"index": idx, "failed": failed, "record": e})
+            break
+        accepted += len(events)
+        for e in events:
+            ctx.case(key="T" + json.dumps([e["buf"], e["chunks"][:50], e["stream"][:200]]),
+                     nontrivial=len(e["chunks"]) > 1 and len(e["dec"]) > 0)
+        if part == 0:
+            ctx.sample({"recorded": {k: events[0][k] for k in ("buf", "chunks", "stream", "dec", "err", "reads")}})
+    ctx.cov["recorded_runs"] = accepted
+    ctx.cov["exhaustive"] = False
+    ctx.cov["exhaustive_scope"] = ("complete for the bounded grammar stated in the assumptions (every value / concatenation / "
+                                   "chunking of it was enumerated), not for all RESP values")
+    return model_trouble
+
+
 def run(ctx):
     ctx.build()
     tier = "thorough" if ctx.thorough else "quick"
@@ -70,13 +244,13 @@ def run(ctx):
         "RespReader models window arithmetic, not buffer contents; contents are observed on the real code",
     ]
     # 1. refinement of the abstract decoder by the implementation-shaped one
-    ctx.mc("redis", "RespGen", "MC_Resp_ref_%s.cfg" % tier, workers=4 if not ctx.thorough else 8, timeout=900)
+    ctx.mc("redis", "RespGen", "MC_Resp_ref_%s.cfg" % tier, workers=8, timeout=900)
 
     # 2. vectors
     vectors = []
     rv, vals = _gen(ctx, "Gen_Resp_val_%s.cfg" % tier, {"VAL"}, workers=4 if not ctx.thorough else 8)
     rc, cats = _gen(ctx, "Gen_Resp_cat_%s.cfg" % tier, {"CAT"})
-    rr, rds = _gen(ctx, "Gen_Resp_rd_%s.cfg" % tier, {"RD"}, workers=4 if not ctx.thorough else 8)
+    rr, rds = _gen(ctx, "Gen_Resp_rd_%s.cfg" % tier, {"RD"}, workers=8)
     ri, ints = _gen(ctx, "Gen_Resp_int_%s.cfg" % tier, {"INT", "ITOA"})
     for t, p in vals + cats + rds + ints:
         vectors.append({"tag": t, "id": len(vectors), "o": p})
@@ -102,8 +276,11 @@ def run(ctx):
     vfile = os.path.join(ctx.work, "vectors.ndjson")
     kit.write_ndjson(vfile, vectors)
     rfile = os.path.join(ctx.work, "replay.ndjson")
-    rcode, so, se = ctx.harness(["c10-replay", "-in", vfile, "-out", rfile, "-maxcuts", "3" if ctx.thorough else "2"],
-                                 timeout=3000, allow_fail=True)
+    # the replay (Go, all cores) runs while TLC judges the recorded runs
+    replay = _Bg(lambda: ctx.harness(["c10-replay", "-in", vfile, "-out", rfile, "-maxcuts", "3" if ctx.thorough else "2"],
+                                     timeout=3000, allow_fail=True))
+    model_trouble = recorded_runs(ctx)
+    rcode, so, se = replay.join()
     recs = kit.read_ndjson(rfile) if os.path.exists(rfile) else []
     if rcode != 0:
         raise kit.Inconclusive("c10-replay exited %d: %s" % (rcode, se[-1500:]))
@@ -127,6 +304,8 @@ def run(ctx):
     if model_bad and not ctx.violations:
         raise kit.Inconclusive("RespReader.tla predicts other reads than bufio.go issues (%d vectors), e.g. %s"
                                % (len(model_bad), json.dumps(model_bad[0])[:600]))
+    if model_trouble and not ctx.violations:
+        raise kit.Inconclusive(model_trouble)
     runs = 0
     for t, s in sums.items():
         runs += s["runs"]
@@ -154,53 +333,18 @@ def run(ctx):
     if small_rd:
         ctx.sample({"RD": small_rd[0]})
 
-    # 3. recorded runs of the real codec judged by TLC
-    n_rec = 1500 if ctx.thorough else 300
-    n_long = 150 if ctx.thorough else 25
-    per = 300
-    accepted = 0
-    for part in range(0, n_rec, per):
-        tfile = os.path.join(ctx.work, "recorded-%d.json" % part)
-        ctx.harness(["c10-record", "-n", str(min(per, n_rec - part)), "-long", str(max(0, min(per, n_long - part))), "-out", tfile],
-                    env={"VERIF_SEED": str(ctx.seed * 1000 + part)}, timeout=600)
-        with open(tfile) as f:
-            events = json.load(f)
-        rt = ctx.validate_traces("redis", "RespTrace", "Trace_Resp.cfg", events, len(events), timeout=600)
-        ctx.cov["states"] += rt.distinct
-        ctx.cov["transitions"] += rt.generated
-        if not rt.ok:
-            if rt.reject is None:
-                raise kit.Inconclusive("RespTrace failed without a rejection: %s" % (rt.error or rt.violated))
-            idx = rt.reject[0] - 1
-            e = events[idx] if 0 <= idx < len(events) else None
-            failed = rt.reject[1].strip().strip('"').split()
-            if failed == ["reads"]:
-                raise kit.Inconclusive("RespReader.tla predicts other reads than bufio.go issued in recorded run %d: %s"
-                                       % (idx, json.dumps(e)[:800]))
-            ctx.violation("recorded/" + "+".join(x for x in failed if x != "reads"),
-                          "TLC rejects a recorded run of the real codec (%s): stream rope %s chunks %s buffer %s decoded %s err %s" % (
-                              failed, e and e["stream"][:80], e and e["chunks"][:20], e and e["buf"],
-                              e and json.dumps(e["dec"])[:300], e and e["err"]),
-                          {"index": idx, "failed": failed, "record": e})
-            break
-        accepted += len(events)
-        for e in events:
-            ctx.case(key="T" + json.dumps([e["buf"], e["chunks"][:50], e["stream"][:200]]),
-                     nontrivial=len(e["chunks"]) > 1 and len(e["dec"]) > 0)
-        if part == 0:
-            ctx.sample({"recorded": {k: events[0][k] for k in ("buf", "chunks", "stream", "dec", "err", "reads")}})
-    ctx.cov["recorded_runs"] = accepted
-    ctx.cov["exhaustive"] = False
-    ctx.cov["exhaustive_scope"] = ("complete for the bounded grammar stated in the assumptions (every value / concatenation / "
-                                   "chunking of it was enumerated), not for all RESP values")
+    # the long-lived decoder cases and the concurrent stratum run while TLC checks RespEnc
+    lfile = os.path.join(ctx.work, "longlived.ndjson")
+    side = _Bg(lambda: (ctx.harness(["c10-longlived", "-out", lfile], timeout=600), run_concurrent(ctx, vfile)))
+    encoders_model(ctx)
+    _, conc = side.join()
     # long concatenations on ONE decoder (a connection's decoder is long lived): hundreds of messages of every shape,
     # arrays beyond any pre-allocation, nesting up to the documented limit
-    lfile = os.path.join(ctx.work, "longlived.ndjson")
-    ctx.harness(["c10-longlived", "-out", lfile], timeout=600)
     for r in kit.read_ndjson(lfile):
         ctx.case(key=["longlived", r["case"]], nontrivial=r["n"] > 1)
         if not r["ok"]:
             ctx.violation("decode/long-concatenation/" + r["case"].split(" ")[0], "%s: %s" % (r["case"], r["why"]), r)
+    concurrent_results(ctx, *conc)
     ctx.cov["rule"] = ("cases: one per TLC vector (VAL distinct by value, non-trivial = array, structural byte or run in the payload, "
                        ">= 9 digit integer; CAT by message indices, non-trivial = >= 2 messages; RD by buffer, stream, chunks, "
                        "non-trivial = reaches buffer-full / refill / bypass / compaction; INT by text, non-trivial = not a short plain "
